@@ -30,7 +30,8 @@ EXHAUSTIVE = {"quick": False, "thorough": False}
 
 LINE_POOL = ["", "ok", "250-x", "250 x", "-x", " x", "  two", "a  b", "123", "1", "12 files", "226 done", "226-more", "²³¹ sup",
              "٣٣٣ arabic", "ünï", "aé x", "€ 12", "a€", "日本語", "a日本", "😀 astral", "x😀", "a\u2028b", "a\x85b", "a\x0bb", "a\x0cb", "a\x1cb",
-             "x\u2029y", "\x1dlead", "x" * 300, "end.", "\ttab", "a\tb", "Type=dir; name", "250", "25", "9999", "- ", "=", "\"q\""]
+             "x\u2029y", "\x1dlead", "x" * 300, "end.", "\ttab", "a\tb", "Type=dir; name", "250", "25", "9999", "- ", "=", "\"q\"",
+             "a\xffb", "\xff\xff", "\xffz"]      # (byte 255 in latin-1: telnet's IAC, which FTP replies do not escape)
 LATIN_OK = [s for s in LINE_POOL if all(ord(c) < 256 for c in s)]
 
 
